@@ -34,6 +34,20 @@ Theorem C16_nickname_round_trip : forall c s b n0, s_live s -> let n := strip n0
              coherent c (set_name s n) CQueryNick b' (set_name s n) (Ret RNone) [T "QT"] b'.
 Proof. exact nickname_write_read. Qed.
 
+(* the motor protocol for EVERY board (any variable store, any nickname, any of the 20 motor states), every connected error-free
+   client state and every integer request: the run is coherent, nothing but the motor state changes, the enabled flags are
+   clamp(r) <> 0 and the global mode is the requested non-zero scale (motor 1's when both are given, unchanged when none);
+   and the query decodes any board's motor state *)
+Theorem C16_motors_any_board : forall c s b r1 r2, s_live s -> 1 <= mode b <= 5 ->
+  let c1 := clamp05 r1 in let c2 := clamp05 r2 in
+  exists w b', coherent c s (CMotorsOn r1 r2) b s (Ret RNone) w b' /\
+    slots b' = slots b /\ nick b' = nick b /\ en1 b' = negb (c1 =? 0) /\ en2 b' = negb (c2 =? 0) /\
+    mode b' = (if negb (c1 =? 0) then c1 else if negb (c2 =? 0) then c2 else mode b).
+Proof. exact motors_general. Qed.
+Theorem C16_motors_query_any_board : forall c s b, s_live s -> 1 <= mode b <= 5 ->
+  coherent c s CMotorsQuery b s (Ret (RPair (RInt (if en1 b then mode b else 0)) (RInt (if en2 b then mode b else 0)))) [T "QE"] b.
+Proof. exact motors_query_general. Qed.
+
 (* every byte value at every slot: written by var_write, stored by the board in that slot only, read back by var_read
    (256 x 32 cases, exhaustive); var_write_int32 / var_read_int32 are four such exchanges at consecutive slots by definition *)
 Theorem C16_byte_exchange : byte_sweep = true.
@@ -54,6 +68,8 @@ Proof. exact nick_examples. Qed.
 Print Assumptions C16_int32_split_join.
 Print Assumptions C16_int32_round_trip.
 Print Assumptions C16_nickname_round_trip.
+Print Assumptions C16_motors_any_board.
+Print Assumptions C16_motors_query_any_board.
 Print Assumptions C16_byte_exchange.
 Print Assumptions C16_motors.
 Print Assumptions C16_motors_clamp.
